@@ -492,7 +492,9 @@ def run(rn, mod, hs, args, t_start):
     n_w = int(os.environ.get("VERIF_WITNESS_REPLAYS", "2" if rn.tier == "quick" else "8"))
     if n_w > 0 and not violations and not args.only:
         cands = [i for i, h in enumerate(hs) if results[i]["verdict"] == "pass" and h.sched and results[i]["covers"]
-                 and h.desc.get("schedule") == "symbolic"]
+                 and h.desc.get("schedule") == "symbolic"
+                 # a pipeline without closures has no probe points: the native scheduler cannot interleave its workers
+                 and h.desc.get("type") != "E"]
         # playback runs are serial and cost about as much as the query itself: only the cheap ones
         cands = [i for i in sorted(cands, key=lambda i: results[i]["wall"]) if results[i]["wall"] <= 300][:n_w]
         for i in cands:
